@@ -42,6 +42,32 @@ chk("C07", "model_checking", EXPL + ": deep fingerprints (content, Sym ids, node
     "procedure (seed, ancestors, callees in scope) is compared before/after; queries (str, find_all) are included.",
     "fingerprints cover LoopIR content reachable from the procedure; module-level caches are covered by C18", "DESIGN.md §3 C07")
 
+GEN = "bounded-exhaustive enumeration (full product of stated finite axes) driving the real implementation, against an independent oracle"
+chk("C02", "translation_validation", GEN + ": generated C built with gcc+ASan/UBSan and run on the whole control domain, compared with the reference interpreter",
+    "Every seed procedure and every member of the back-end program families (direct accesses, windows and windows of windows with dense/padded/strided/offset layouts, calls with window/dense/by-reference-scalar/size/index/bool parameters, floor div/mod on possibly negative operands in indices, conditions and bounds, allocation scopes x host memories, name clashes, precision pairs, config struct) is compiled by the real back end; the C is built with a generated driver and run on every control valuation; dumped backing stores (including padding), scalars and the context struct must equal the interpreter's result.",
+    "gcc and the reference interpreter are trusted; data values are two fixed exact patterns (the generated C is data-oblivious); accelerator memories cannot be realised on the host", "DESIGN.md §3 C02")
+chk("C08", "exploration", GEN + ": sanitizer-instrumented execution of the generated C on the whole control domain + allocation counting",
+    "Same programs and driver as C02, built with AddressSanitizer and UBSan (no recovery) and -Werror=discarded-qualifiers; malloc/free in the generated unit are remapped to counting wrappers so every call must release exactly what it allocated; valuations on which the LoopIR itself is unsafe are attributed to C03 and skipped.",
+    "sanitizers and gcc are trusted; MDRAM's custom allocator needs host-side init and is excluded", "DESIGN.md §3 C08")
+chk("C10", "model_checking", EXPL + ": C01 equivalence oracle where exactly the configuration fields the system reports are exempt; call_eqv over derived/unrelated callees",
+    "Exploration to depth 2 (quick) / 3 (thorough) from the configuration seeds restricted to the configuration-affecting operations and their neighbours, over all initial control-typed configuration states (real-valued fields symbolic); buffers must agree exactly and every differing field must be in the set the system reports; call_eqv is driven over callees derived with different mod-sets and an unrelated look-alike that must be refused.",
+    "state cap per level reported as cap_hit when reached", "DESIGN.md §3 C10")
+chk("C12", "exploration", GEN + ": probe procedures through the real front end and simplify, interpreter equivalence with per-iteration symbolic weights",
+    "All quasi-affine expressions up to a node bound over the variables of 10 contexts (constant/symbolic/non-zero-lower-bound loops, two loops, index argument, guards, modulo assertion, shadowed and guard-then-shadowed iterators) are embedded as index, condition (3 forms), loop bound and (thorough) window bound / allocation extent; simplify(p) must equal p on every admitted valuation, pointwise per iteration.",
+    "expression node bound 4 (quick) / 5 (thorough); literals from a small pool", "DESIGN.md §3 C12")
+chk("C13", "exploration", GEN + ": brute-force integer evaluation of every valuation inside the stated intervals",
+    "All index expressions up to 5 (quick) / 6 (thorough) nodes over two variables x all environments per variable (finite, half-open, unknown, absent) for index_range_analysis/constant_bound; IndexRange join on all pairs of a base x bound pool; assertion-derived argument ranges and check_expr_bound answers on real procedures; infer_range through the user API.",
+    "unbounded sides truncated 6 beyond the finite end", "DESIGN.md §3 C13")
+chk("C16", "exploration", GEN + ": independent matcher (declarative predicates over the IR in textual order) and navigation laws on every cursor",
+    "For every seed procedure and its unroll/cut/divide successors (duplicated names) the patterns derived from its own statements and expressions (exact text, holes, two-statement sequences, name shorthands) x #k for k=0..count are run through find_all/find/find_loop/find_alloc_or_arg/cursor-scoped find and compared by node path and order with an independent matcher; 17 navigation laws are checked at every statement cursor.",
+    "restricted to the documented pattern fragment; extern-call expression patterns and mid-sequence statement holes are excluded", "DESIGN.md §3 C16")
+chk("C17", "model_checking", EXPL + ": print -> real @proc re-parse -> alpha-isomorphism, overlapping-scope name collision, re-print identity and interpreter equivalence on every distinct state",
+    "Every distinct state reached by the explorer is printed and fed back through the real parser and type checker with memories/configs/callees bound by name (the front end's safety analyses are bypassed: they judge the program, not its text).",
+    "statement/expression type annotations are erased in the isomorphism check", "DESIGN.md §3 C17")
+chk("C19", "exploration", GEN + ": reference interpreter with the documented input relation",
+    "Every seed x partial_eval over every subset of control arguments and every value tuple of the control domain (keyword and positional), transpose of every 2-D argument (transposed store in / transposed result out), add_assertion over the condition alphabet (domain narrowing exactly), rename, make_instr, set_precision/memory/window on every buffer x value, parallelize_loop on every loop.",
+    "sizes 1..3, index args -1..2", "DESIGN.md §3 C19")
+
 ALL = [f"C{i:02d}" for i in range(1, 20)]
 PENDING_REASON = "check under construction in this session (design in DESIGN.md §3); not claimed until it runs silently on the unchanged tree"
 def main():
